@@ -13,10 +13,14 @@ MANIFEST = dict(
          'every child\'s parent field names its parent and the root\'s is null for every insertion sequence, in both flavours. Both '
          'models are tied to include/ipr/utility by an exact correspondence after every insertion (all permutations / duplicate '
          'sequences up to a bound, long adversarial runs): shape, colours, size, find answers and every node\'s parent; the verified '
-         'checkers are run on the real shapes.',
+         'checkers are run on the real shapes. In the intrusive flavour the node OBJECT that is already linked is also offered again '
+         '(every node of every tree of up to 5 / 6 keys: root, inner nodes, leaves; and between fresh insertions in longer histories): the '
+         'persistent model ignores an equal element, the pointer-level model runs the statements of chain::insert on the cell that is '
+         'already linked (Store.insertChainAt), and the real tree, every link of the offered node and every later look-up must agree.',
     note='Lean kernel; axioms propext/Classical.choice/Quot.sound; hand-written models tied by correspondence only on generated '
          'sequences; addresses of the pointer-level model are allocation indices (the real addresses are canonicalised away by printing '
-         'parent keys); harness rbprobe.cxx, ASan/UBSan, g++.',
+         'parent keys); the re-offer of a linked node is tied by correspondence only (no theorem about insertChainAt); harness rbprobe.cxx, '
+         'ASan/UBSan, g++.',
     technique='Lean 4 theorems (induction over insertion histories; refinement of a persistent zipper model by a pointer-level store '
               'model) + exact-shape-and-parent-link differential correspondence',
     ref='§4 C08')
@@ -49,6 +53,26 @@ def gen_sequences(tier, rng):
         seq = [[rng.randrange(span)] for _ in range(rng.randint(2, 16))]
         fl = rng.choice([('own', 'int'), ('chain', 'lex'), ('own', 'lex'), ('chain', 'lex'), ('own', 'wide')])
         yield ('interleaved', fl[0], fl[1], seq, 1, ('inline', span))
+    # the intrusive flavour does not own its nodes: the node OBJECT that is already linked is offered again -- every node of every
+    # small tree (root, inner nodes, leaves), each followed by the full observation; the offer is ignored (an equal element, the
+    # object itself, is present): shape, colours, every parent link and every look-up stay as they were, `count` moves as the code does
+    for n in range(1, (5 if tier == 'quick' else 6) + 1):
+        for perm in itertools.permutations(range(1, n + 1)):
+            order = list(perm)
+            rng.shuffle(order)
+            yield ('reoffered', 'chain', 'lex', [[k] for k in perm] + [('re', [k]) for k in order], 1, [[k] for k in range(0, n + 2)])
+    # ... and in longer histories, between fresh insertions (distinct objects with equal keys included)
+    for r in range(120 if tier == 'quick' else 3000):
+        span = rng.choice([4, 9, 20, 48])
+        seq, have = [], []
+        for _ in range(rng.randint(3, 40)):
+            if have and rng.random() < 0.4:
+                seq.append(('re', [rng.choice(have)]))
+            else:
+                k = rng.randrange(span)
+                seq.append([k])
+                have.append(k)
+        yield ('reoffered-interleaved', 'chain', 'lex', seq, 1, ('inline', span))
     big = 10_000 if tier == 'quick' else 300_000
     every = 500 if tier == 'quick' else 20_000
     shapes = {
@@ -73,14 +97,14 @@ def ops_of(flavour, cmp, keys, dump_every, probes):
     ops = ['new %s %s' % (flavour, cmp)]
     inline = None
     if isinstance(probes, tuple) and probes[0] == 'inline':
-        inline = random.Random(len(keys) * 1000003 + sum(k[0] for k in keys) + probes[1])
+        inline = random.Random(len(keys) * 1000003 + sum((k[1] if isinstance(k, tuple) else k)[0] for k in keys) + probes[1])
         span = probes[1]
         probes = [[k] for k in range(-1, span + 1)]
     for i, k in enumerate(keys):
         if inline is not None:
             for _ in range(inline.randrange(3)):
                 ops.append('find ' + key_s([inline.randrange(-1, span + 1)]))
-        ops.append('ins ' + key_s(k))
+        ops.append('reins ' + key_s(k[1]) if isinstance(k, tuple) else 'ins ' + key_s(k))
         if (i + 1) % dump_every == 0:
             ops += ['dump', 'pdump']
     if dump_every != 1:
@@ -127,6 +151,15 @@ def oracle(ops, impl, chk_answers):
                 exp = 'size=%d' % ninsert
             if line != exp:
                 return i, '`%s` answered `%s`, the statement requires `%s`' % (op, line, exp)
+        elif w[0] == 'reins':
+            # the linked node object offered again: ignored, `count` incremented as chain::insert does for every call
+            if flavour != 'chain' or w[1] not in seen:
+                exp = 'bad-op'
+            else:
+                ninsert += 1
+                exp = 'size=%d' % ninsert
+            if line != exp:
+                return i, '`%s` answered `%s`, the statement requires `%s`' % (op, line, exp)
         elif w[0] == 'find':
             exp = 'found=' + (w[1] if w[1] in seen else 'none')
             if line != exp:
@@ -151,7 +184,8 @@ def run(tier):
         ops += ops_of(fl, cmp, keys, every, probes)
         labels[label] = labels.get(label, 0) + 1
         if labels[label] <= 1:
-            res.sample({'kind': label, 'flavour': fl, 'cmp': cmp, 'keys': [key_s(k) for k in keys[:12]], 'n_keys': len(keys)})
+            res.sample({'kind': label, 'flavour': fl, 'cmp': cmp, 'n_keys': len(keys),
+                        'keys': [('again:' + key_s(k[1])) if isinstance(k, tuple) else key_s(k) for k in keys[:12]]})
     text = '\n'.join(ops) + '\n'
     rc_i, out_i, err_i = C.run_exe(probe, [], text, timeout=240 if tier == 'quick' else 1800)
     rc_m, out_m, err_m = C.run_model('c08', text)
@@ -171,7 +205,12 @@ def run(tier):
         return ops[s:i + 1]
 
     bad = oracle(ops, impl, chk)
-    if rc_i != 0 or len(impl) != len(ops):
+    if bad and (rc_i != 0 or len(impl) != len(ops)):
+        # the probe stopped later on, but the trace up to there already violates the statement: that (shorter) input is the replay
+        i, msg = bad
+        res.violation('statement', msg + ' (later in the run the probe stopped, exit %d: %s)' % (rc_i, (err_i.strip().splitlines() or ['?'])[0][:300]),
+                      '\n'.join(seq_of(i)))
+    elif rc_i != 0 or len(impl) != len(ops):
         i = min(len(impl), len(ops) - 1)
         s0 = max(x for x in starts if x <= i)
         e0 = min([x for x in starts if x > i] + [len(ops)])
@@ -214,7 +253,7 @@ def run(tier):
         'comparators of the probe (int, address, lexicographic; also difference-valued variants with the same sign) are the lawful instances proved in C08_icmp_lawful / C08_lexCmp_lawful',
     ]
     return res.finish(info, rule='all permutations of 1..n and all duplicate-bearing sequences over {1..4} up to the tier bound, '
-                      'lexicographic keys, then long sorted/reversed/random/organ-pipe/zig-zag/few-distinct sequences; exact shape, size, '
+                      'lexicographic keys, linked node objects offered again (intrusive flavour), then long sorted/reversed/random/organ-pipe/zig-zag/few-distinct sequences; exact shape, size, '
                       'result identity, find answers and every node\'s parent compared with the two models after every insertion (long runs: periodically); '
                       'a trace is one insertion sequence')
 
